@@ -337,7 +337,7 @@ type c07Result struct {
 	c0       uint64
 	t0bits   uint64
 	log      *c07Log
-	outcome  int // 0 returned, 1 re-panicked with the same value, 2 re-panicked with errors.Wrap of it, 3 something else
+	outcome  int // 0 returned, 1 re-panicked with the injected value (or an error wrapping it), 3 re-panicked with something else
 	finalIt  uint64
 	finalT   uint64
 	setupBad string
@@ -423,8 +423,8 @@ func c07Execute(c c07Case) c07Result {
 		if s, ok := val.(string); ok && s == st.origOther {
 			res.outcome = 1
 		}
-		if e, ok := val.(error); ok && e != st.origErr && pkgerrors.Cause(e) == st.origErr {
-			res.outcome = 2
+		if e, ok := val.(error); ok && (e == st.origErr || pkgerrors.Cause(e) == st.origErr) {
+			res.outcome = 1 // the injected error itself or a wrapper of it (wrapping is not part of the property)
 		}
 	}
 	res.finalIt = counter.VerifCurrentIteration()
@@ -572,7 +572,7 @@ func c07Oracle(c c07Case, r c07Result) []string {
 		}
 	case pay == c07PayNil:
 		// reported separately (swallowed): see c07Swallowed
-	case pay == c07PayOther && r.outcome != 1, pay == c07PayError && r.outcome != 2:
+	case r.outcome != 1:
 		fail("injected panic (payload kind %d) was not re-raised as expected: outcome %d", pay, r.outcome)
 	}
 	// cooling never heats
@@ -625,7 +625,7 @@ func c07Emit(c c07Case) {
 	if c.where != c07WhereNone {
 		c07Stats["payload_"+[]string{"", "error", "other", "nil"}[c.pay]]++
 	}
-	c07Stats["outcome_"+[]string{"returned", "repanicSame", "repanicWrapped", "else"}[r.outcome]]++
+	c07Stats["outcome_"+[]string{"returned", "reraised", "", "else"}[r.outcome]]++
 	if c.clone {
 		c07Stats["deepclone"]++
 	}
@@ -682,7 +682,7 @@ func runC07(args []string) {
 	ns := []uint64{0, 1, 2, 7, 100}
 	allM := false
 	if tier == "thorough" {
-		ns = []uint64{0, 1, 2, 3, 7, 20, 100, 1000}
+		ns = []uint64{0, 1, 2, 3, 7, 20, 50, 100, 1000}
 		allM = true
 	}
 	run := func(c c07Case) {
